@@ -100,7 +100,7 @@ def cases_for_server(si, idx, rng, tier, minor, all_codes):
         excs = list(R.MAPPED) + (R.SUBCLASSED + R.UNMAPPED if not quick else rng.sample(R.SUBCLASSED, 2) + rng.sample(R.UNMAPPED, 3))
         for name in excs:
             cases.append(mk_case(si, idx, m["id"], body, script("raise", exc=name), "raise:" + R.EXC[name][1], "ok", rng))
-        codes = rng.sample(all_codes, 3 if quick else 12) + [rng.choice(RMC_EDGE_CODES)]
+        codes = (rng.sample(all_codes, 3) if quick else list(all_codes)) + [rng.choice(RMC_EDGE_CODES)]
         for c in codes:
             cases.append(mk_case(si, idx, m["id"], body, script("raise", exc="RMCError", code=c), "raise:rmc", "ok", rng))
         cases.append(mk_case(si, idx, m["id"], body, script("raise", exc="RMCError", code=errors.error_names[rng.choice(all_codes)]), "raise:rmc-name", "ok", rng))
@@ -127,6 +127,9 @@ def cases_for_server(si, idx, rng, tier, minor, all_codes):
                 cases.append(mk_case(si, idx, m["id"], body, script("raise", exc=name), "raise:" + R.EXC[name][1], "ok", rng))
             for c in RMC_EDGE_CODES:
                 cases.append(mk_case(si, idx, m["id"], body, script("raise", exc="RMCError", code=c), "raise:rmc-edge", "ok", rng))
+            for c in all_codes:   # every code of the error table, by number and by name
+                cases.append(mk_case(si, idx, m["id"], body, script("raise", exc="RMCError", code=c), "raise:rmc-table", "ok", rng))
+                cases.append(mk_case(si, idx, m["id"], body, script("raise", exc="RMCError", code=errors.error_names[c]), "raise:rmc-table-name", "ok", rng))
             cases.append(mk_case(si, idx, m["id"], body, script("raise", exc="RMCError", code=None), "raise:rmc-default", "ok", rng))
             cases.append(mk_case(si, idx, m["id"], body, script("raise", exc="SubRMCError", code=0x10005), "raise:rmc-subclass", "ok", rng))
             cases.append(mk_case(si, idx, m["id"], body, script("raise", exc="RMCError", code="No::SuchError"), "raise:rmc-unknown-name", "ok", rng))
@@ -328,12 +331,12 @@ def run(ctx):
     for s in (rng.sample(servers, 6) if quick else servers):
         jobs.append(("lethal", [s], rng.randrange(1 << 30), ctx.tier, 0, all_codes, None))
     # long mixed sequences over several servers with distinct protocol ids
-    for _ in range(4 if quick else 16):
+    for _ in range(4 if quick else 32):
         pick, used = [], set()
         for s in rng.sample(servers, len(servers)):
             if s["protocol"] not in used and len(pick) < 8:
                 pick.append(s); used.add(s["protocol"])
-        jobs.append(("mixed", pick, rng.randrange(1 << 30), ctx.tier, rng.choice([0, 3]), all_codes, 1500 if quick else 4000))
+        jobs.append(("mixed", pick, rng.randrange(1 << 30), ctx.tier, rng.choice([0, 3]), all_codes, 1500 if quick else 6000))
     par = min(16, os.cpu_count() or 1)
     with multiprocessing.get_context("fork").Pool(par) as pool:
         parts = pool.map(_worker, jobs, chunksize=1)
